@@ -6,6 +6,8 @@ from pyvc.runner import Lemma
 import contracts.guesser_core as gc
 import contracts.guesser_expand as ge
 import contracts.guesser_honey as gh
+import contracts.guesser_loader as gld
+import contracts.guesser_session as gs
 
 M = gc.MOD + ':PcfgGrammar.'
 
@@ -25,13 +27,18 @@ def lemmas():
 PROP = Prop(
     'C16', "Honeywords are drawn from the grammar with the grammar's probabilities",
     functions=[M + '_find_prob', M + 'random_walk', M + '_honeyword_recursive_guess', M + 'create_guesses',
-               gh.HS + '.__init__', gh.HS + '.run'],
-    lemmas=lemmas,
+               gh.HS + '.__init__', gh.HS + '.run',
+               # "the grammar's probabilities": the base-structure probabilities drawn from are the file's, renormalised by 1 - P(M) under --skip_brute
+               (gld.GIO + ':_load_base_structures', gs.install)],
+    lemmas=lambda: lemmas() + gld.firstm_stable.lemmas(),
     setup=gh.install,
     effects=effects.state_frame_for('C16', ['lib_guesser/pcfg_grammar.py', 'lib_guesser/honeyword_session.py']),
     level='other',
     replay=script_replay('replay/honey.py', default_fn='ALL'),
-    bounded=[Bounded('C16.bounded.sweep', 'replay/honey.py', args=['--fn', 'ALL'],
+    bounded=[Bounded('C16.bounded.loader_base', 'replay/loader.py', args=['--fn', '_load_base_structures'],
+                     bound='grammar.txt files of 1-6 lines, M line first/middle/last/absent, both skip_brute values',
+                     clause='cross-check of the base-structure loader against its declarative spec'),
+             Bounded('C16.bounded.sweep', 'replay/honey.py', args=['--fn', 'ALL'],
                      bound='10 (quick) / 60 (thorough) small rulesets with dyadic probabilities; every selection interval of the base choice '
                            '(midpoint, breakpoint, above the float sum) x 6 combinations of group-interval points; 8 seeds; limits {1,2,5} in both modes',
                      clause='the induced measure of every base structure equals its probability (exact rationals); every honeyword is an element of '
